@@ -182,3 +182,41 @@ func init() {
 		}
 	}
 }
+
+func init() {
+	dumpers["bce"] = func(p *Prog, m *Model) {
+		gobin := os.Getenv("GOBIN_BCE")
+		if gobin == "" {
+			gobin = "go"
+		}
+		sites, nAbort, err := bceSites(p, gobin)
+		if err != nil {
+			fmt.Println("error:", err)
+			return
+		}
+		fmt.Println("# sites:", len(sites), "abort statements patched:", nAbort)
+		type k struct{ f, e, file string }
+		cnt := map[k]int{}
+		first := map[k]int{}
+		for _, s := range sites {
+			kk := k{s.Func, s.Expr, s.File}
+			cnt[kk]++
+			if first[kk] == 0 {
+				first[kk] = s.Line
+			}
+		}
+		var keys []k
+		for kk := range cnt {
+			keys = append(keys, kk)
+		}
+		sort.Slice(keys, func(i, j int) bool {
+			if keys[i].file != keys[j].file {
+				return keys[i].file < keys[j].file
+			}
+			return first[keys[i]] < first[keys[j]]
+		})
+		for _, kk := range keys {
+			fmt.Printf("%s:%d\t%s\t%s\t%d\n", kk.file, first[kk], kk.f, kk.e, cnt[kk])
+		}
+	}
+}
